@@ -1,4 +1,4 @@
-import HpoProofs.Linkage
+import HpoProofs.LinkageClosed
 /-!
 # C17 — hierarchical clustering returns a valid dendrogram built from closest pairs
 
@@ -9,7 +9,10 @@ distance callback `d`, over ANY numeric type `F` with ANY comparison `lt` and me
 need no assumption on the distances at all (ties included); `C17_closest` assumes a linear order.
 
 `mergedIdx cl = [lhs₀, rhs₀, lhs₁, rhs₁, …]`, `sz n cl i` = 1 for an input (`i < n`), else the
-recorded size of cluster `i − n`; `pairsLex l` = `(l[i], l[j])` for `i < j` in lexicographic order.
+recorded size of cluster `i − n`; `pairsLex l` = `(l[i], l[j])` for `i < j` in lexicographic order;
+`leaves n cl i` = the inputs below index `i` of the dendrogram (`[i]` for an input, leaves of `lhs`
+followed by leaves of `rhs` for a cluster, see `C17_dendrogram`); `leafDist d members a b` = the
+callback's answer for the inputs `a`, `b` in input order (`d members[a] members[b]` for a symmetric `d`).
 -/
 namespace Hpo.C17
 open Hpo Hpo.Linkage
@@ -201,43 +204,24 @@ theorem C17_update_average (lt : F → F → Bool) (mean : F → F → F) (d : L
   ⟨rfl, rfl, rfl, rfl⟩
 
 /-- union linkage (one iteration of `cluster_set_unions` in any state):
-the two closest sets are replaced by their union (`extend`) appended as the new last entry, and the
-distance callback is called exactly once, with the pairs `(union, live entry)` in index order followed
-by `(union, union)`.
-PARTIAL — proved: the argument sequence of the callback (this theorem) and, in `C17_closest`, that
-the matrix afterwards holds exactly the pairs of live entries.  Not proved (full statement):
-`∀ i, isLive s.sets i → i ≠ a → i ≠ b → dmGet s'.dm (i, s.sets.length) = some (d (x ∪ y) setᵢ)`
-and `dmGet s'.dm q = dmGet s.dm q` for keys `q` not touching `a`, `b`, `s.sets.length`;
-the correspondence check compares these values on every union run. -/
-theorem C17_update_union_partial (lt : F → F → Bool) (d : List Nat → List Nat → F) (s s' : State F)
+the two closest sets `x = sets[a]`, `y = sets[b]` are replaced by their union (`extend`) appended as
+the new last entry `new = sets.len()`, the distance callback is called exactly once, with the pairs
+`(union, live entry)` in index order followed by `(union, union)`, and afterwards the matrix holds,
+for every live entry `i` other than the two merged ones, the callback's value `d (x ∪ y) setᵢ`
+under the key `(i, new)`; every entry whose key touches neither `a`, `b` nor `new` is unchanged
+(the keys touching `a` or `b` are gone and there are no others: `KeysOK` in `C17_closest`). -/
+theorem C17_update_union (lt : F → F → Bool) (d : List Nat → List Nat → F) (s s' : State F)
     (h : unionStep lt d s = some s') :
     ∃ a b dist x y, closest lt s.dm = some ((a, b), dist) ∧
       (s.sets[a]?).join = some x ∧ (s.sets[b]?).join = some y ∧
       s'.sets = takeTwo s.sets a b ++ [some (Group.insertAll x y)] ∧
       s'.log = s.log ++ [rowPairs (Group.insertAll x y)
-        (takeTwo s.sets a b ++ [some (Group.insertAll x y)])] := by
-  unfold unionStep at h
-  split at h
-  · cases h
-  · rename_i e he
-    split at h
-    · cases h
-    · split at h
-      · split at h
-        · cases h
-        · rename_i mm hm
-          split at h
-          · cases h
-          · cases h
-            obtain ⟨⟨a, b⟩, dist⟩ := e
-            simp only at hm ⊢
-            unfold mergeSets at hm
-            split at hm
-            · rename_i x y hx hy
-              cases hm
-              exact ⟨a, b, dist, x, y, he, hx, hy, rfl, by rw [combosLast_append_some]⟩
-            · cases hm
-      · cases h
+        (takeTwo s.sets a b ++ [some (Group.insertAll x y)])] ∧
+      (∀ i si, s.sets[i]? = some (some si) → i ≠ a → i ≠ b →
+        dmGet s'.dm (i, s.sets.length) = some (d (Group.insertAll x y) si)) ∧
+      (∀ q : Nat × Nat, q.1 ≠ a → q.1 ≠ b → q.2 ≠ a → q.2 ≠ b → q.2 ≠ s.sets.length →
+        dmGet s'.dm q = dmGet s.dm q) :=
+  unionStep_update lt d s s' h
 
 /-- every state in which a merge is performed satisfies the invariant (in particular its matrix
 holds exactly the pairs of live entries), so the update theorems apply to every merge of a run -/
@@ -254,6 +238,150 @@ theorem C17_trace_inv (m : Method) (lt : F → F → Bool) (mean : F → F → F
     (members.length + 1) (init d members) sf hi hcard h k sk hk
   refine ⟨h1, ?_, by rw [h2]; rfl⟩
   intro he; rw [he] at h5; simp [closest] at h5
+
+/-- Closed form of single linkage, for ANY strict linear comparison `lt` (irreflexive, transitive,
+total — the three hypotheses; no other structure on `F`): in the state before the `k`-th merge the
+stored distance `v` of any two live entries `i < j` is the MINIMUM of the input distances
+`leafDist a b` over all pairs of leaves `a` below `i`, `b` below `j` — it is one of them and none is
+`lt`-smaller —, and the distance recorded for the `k`-th merge is the minimum over the leaves of its
+two sides.  Leaf sets are those of the final dendrogram (`C17_dendrogram`). -/
+theorem C17_single_closed_form (lt : F → F → Bool) (hirr : ∀ a, lt a a = false)
+    (htrans : ∀ a b c, lt a b = true → lt b c = true → lt a c = true)
+    (htot : ∀ a b, lt a b = true ∨ a = b ∨ lt b a = true)
+    (mean : F → F → F) (d : List Nat → List Nat → F) (members : List (List Nat)) (sf : State F)
+    (h : cluster .single lt mean d members = some sf) (k : Nat) (sk : State F)
+    (hk : (trace (stepOf .single lt mean d) (members.length + 1) (init d members))[k]? = some sk) :
+    (∀ i j, i < j → isLive sk.sets i = true → isLive sk.sets j = true →
+      ∃ v, dmGet sk.dm (i, j) = some v ∧
+        (∃ a ∈ leaves members.length sf.clusters i, ∃ b ∈ leaves members.length sf.clusters j,
+          v = leafDist d members a b) ∧
+        (∀ a ∈ leaves members.length sf.clusters i, ∀ b ∈ leaves members.length sf.clusters j,
+          lt (leafDist d members a b) v = false)) ∧
+    ∃ c, sf.clusters[k]? = some c ∧
+      (∃ a ∈ leaves members.length sf.clusters c.lhs, ∃ b ∈ leaves members.length sf.clusters c.rhs,
+        c.dist = leafDist d members a b) ∧
+      (∀ a ∈ leaves members.length sf.clusters c.lhs, ∀ b ∈ leaves members.length sf.clusters c.rhs,
+        lt (leafDist d members a b) c.dist = false) :=
+  closed_form .single lt lt mean d rfl hirr htrans htot members sf h k sk hk
+
+/-- Closed form of complete linkage (same hypotheses): the stored distance of two live entries is
+the MAXIMUM of the input distances over all pairs of leaves — it is one of them and it is
+`lt`-smaller than none —, and so is the distance recorded for the `k`-th merge. -/
+theorem C17_complete_closed_form (lt : F → F → Bool) (hirr : ∀ a, lt a a = false)
+    (htrans : ∀ a b c, lt a b = true → lt b c = true → lt a c = true)
+    (htot : ∀ a b, lt a b = true ∨ a = b ∨ lt b a = true)
+    (mean : F → F → F) (d : List Nat → List Nat → F) (members : List (List Nat)) (sf : State F)
+    (h : cluster .complete lt mean d members = some sf) (k : Nat) (sk : State F)
+    (hk : (trace (stepOf .complete lt mean d) (members.length + 1) (init d members))[k]? = some sk) :
+    (∀ i j, i < j → isLive sk.sets i = true → isLive sk.sets j = true →
+      ∃ v, dmGet sk.dm (i, j) = some v ∧
+        (∃ a ∈ leaves members.length sf.clusters i, ∃ b ∈ leaves members.length sf.clusters j,
+          v = leafDist d members a b) ∧
+        (∀ a ∈ leaves members.length sf.clusters i, ∀ b ∈ leaves members.length sf.clusters j,
+          lt v (leafDist d members a b) = false)) ∧
+    ∃ c, sf.clusters[k]? = some c ∧
+      (∃ a ∈ leaves members.length sf.clusters c.lhs, ∃ b ∈ leaves members.length sf.clusters c.rhs,
+        c.dist = leafDist d members a b) ∧
+      (∀ a ∈ leaves members.length sf.clusters c.lhs, ∀ b ∈ leaves members.length sf.clusters c.rhs,
+        lt c.dist (leafDist d members a b) = false) :=
+  closed_form .complete lt (fun x y => lt y x) mean d rfl hirr
+    (fun a b c h1 h2 => htrans c b a h2 h1)
+    (fun a b => by rcases htot a b with h | h | h <;> simp [h]) members sf h k sk hk
+
+/-- the input distance of the closed forms is the callback on the two inputs when the callback is
+symmetric (the property's quantifier), and it is symmetric in any case -/
+theorem C17_leafDist (d : List Nat → List Nat → F) (members : List (List Nat)) (a b : Nat) :
+    leafDist d members a b = leafDist d members b a ∧
+    ((∀ x y, d x y = d y x) →
+      leafDist d members a b = d (members[a]?.getD []) (members[b]?.getD [])) :=
+  ⟨leafDist_comm d members a b, fun hd => leafDist_of_symm d hd members a b⟩
+
+/-- the "initial distances" of the closed forms: `Linkage::new` stores under `(i, j)`, `i < j < n`,
+the callback's answer for the `i`-th and `j`-th input, which is `leafDist i j` -/
+theorem C17_initial_distance (d : List Nat → List Nat → F) (members : List (List Nat)) (i j : Nat)
+    (hij : i < j) (hj : j < members.length) :
+    dmGet (init d members).dm (i, j) = some (leafDist d members i j) ∧
+    leafDist d members i j = d (members[i]?.getD []) (members[j]?.getD []) := by
+  have e : leafDist d members i j = d (members[i]?.getD []) (members[j]?.getD []) := by
+    unfold leafDist keyOf; rw [if_pos hij]
+  exact ⟨by rw [e]; exact init_dmGet d members i j hij hj, e⟩
+
+/-- every linear order (in Mathlib's sense) that `lt` decides satisfies the three order hypotheses
+of the closed forms -/
+theorem C17_order_hyps [LinearOrder F] (lt : F → F → Bool) (hlt : ∀ a b, lt a b = true ↔ a < b) :
+    (∀ a, lt a a = false) ∧
+    (∀ a b c, lt a b = true → lt b c = true → lt a c = true) ∧
+    (∀ a b, lt a b = true ∨ a = b ∨ lt b a = true) := by
+  refine ⟨?_, ?_, ?_⟩
+  · intro a
+    cases h : lt a a
+    · rfl
+    · exact absurd ((hlt a a).1 h) (lt_irrefl a)
+  · intro a b c h1 h2
+    exact (hlt a c).2 (lt_trans ((hlt a b).1 h1) ((hlt b c).1 h2))
+  · intro a b
+    rcases lt_trichotomy a b with h | h | h
+    · exact Or.inl ((hlt a b).2 h)
+    · exact Or.inr (Or.inl h)
+    · exact Or.inr (Or.inr ((hlt b a).2 h))
+
+/-- The merges form a binary tree over the inputs (`n ≥ 2`, all methods, any distances): there are
+`n − 1` merges, merge `k` creating index `n + k`; every index below the root `2n − 2` is the child
+(`lhs` or `rhs`) of exactly one merge, and that merge comes later (`i < n + k`); the two children of
+a merge differ and the root is nobody's child; the leaf set of an input is itself, that of cluster
+`n + k` is the leaf set of its `lhs` followed by that of its `rhs` and has the recorded size; and
+the leaf set of the last merge — the root — is all of `0..n` (each input once). -/
+theorem C17_dendrogram (m : Method) (lt : F → F → Bool) (mean : F → F → F)
+    (d : List Nat → List Nat → F) (members : List (List Nat)) (sf : State F)
+    (h : cluster m lt mean d members = some sf) (hn : 2 ≤ members.length) :
+    sf.clusters.length = members.length - 1 ∧
+    (∀ i, i < 2 * members.length - 2 →
+      ∃ k, ∃ hk : k < sf.clusters.length,
+        (sf.clusters[k].lhs = i ∨ sf.clusters[k].rhs = i) ∧ i < members.length + k ∧
+        ∀ k' (hk' : k' < sf.clusters.length),
+          (sf.clusters[k'].lhs = i ∨ sf.clusters[k'].rhs = i) → k' = k) ∧
+    (∀ k (hk : k < sf.clusters.length), sf.clusters[k].lhs ≠ sf.clusters[k].rhs ∧
+      sf.clusters[k].lhs < 2 * members.length - 2 ∧ sf.clusters[k].rhs < 2 * members.length - 2) ∧
+    (∀ i, i < members.length → leaves members.length sf.clusters i = [i]) ∧
+    (∀ k (hk : k < sf.clusters.length),
+      leaves members.length sf.clusters (members.length + k) =
+        leaves members.length sf.clusters sf.clusters[k].lhs ++
+          leaves members.length sf.clusters sf.clusters[k].rhs ∧
+      (leaves members.length sf.clusters (members.length + k)).length = sf.clusters[k].size) ∧
+    (leaves members.length sf.clusters (2 * members.length - 2)).Perm
+      (List.range members.length) := by
+  have hcount := C17_count m lt mean d members sf h
+  have honce := C17_each_once m lt mean d members sf h hn
+  have haddr := C17_addressable m lt mean d members sf h
+  have hsizes := (C17_sizes m lt mean d members sf h).1
+  have hnd : (mergedIdx sf.clusters).Nodup := by
+    apply List.nodup_iff_count_le_one.2
+    intro i; rw [honce i]; split <;> omega
+  have hmem : ∀ i, i ∈ mergedIdx sf.clusters ↔ i < 2 * members.length - 2 := by
+    intro i
+    rw [← List.count_pos_iff, honce i]
+    split <;> simp [*]
+  refine ⟨hcount, ?_, ?_, fun i hi => leaves_input _ _ _ hi, ?_,
+    final_root m lt mean d members sf h hn⟩
+  · intro i hi
+    obtain ⟨k, hk, hc⟩ := (mem_mergedIdx sf.clusters i).1 ((hmem i).2 hi)
+    refine ⟨k, hk, hc, ?_, ?_⟩
+    · have := haddr k hk
+      rcases hc with hc | hc <;> omega
+    · intro k' hk' hc'
+      exact mergedIdx_unique sf.clusters hnd i k' k hk' hk hc' hc
+  · intro k hk
+    have := haddr k hk
+    refine ⟨by omega, ?_, ?_⟩
+    · exact (hmem _).1 ((mem_mergedIdx sf.clusters _).2 ⟨k, hk, Or.inl rfl⟩)
+    · exact (hmem _).1 ((mem_mergedIdx sf.clusters _).2 ⟨k, hk, Or.inr rfl⟩)
+  · intro k hk
+    have := haddr k hk
+    refine ⟨leaves_cluster _ _ k hk (by omega) (by omega), ?_⟩
+    rw [length_leaves members.length sf.clusters
+      (fun k hk => by have := haddr k hk; omega) hsizes _ (by omega)]
+    have e1 : ¬ (members.length + k < members.length) := by omega
+    simp [sz, Linkage.sizeOf, e1, List.getElem?_eq_getElem hk]
 
 /-! ### non-vacuity -/
 
@@ -280,6 +408,39 @@ example :
         [[0], [1], [2], [3]]).map fun s =>
       s.clusters.map fun c => (c.lhs, c.rhs, c.dist, c.size))
     = some [(0, 1, 2, 2), (2, 3, 4, 2), (4, 5, 11, 4)] := by
+  decide
+
+/-- the three order hypotheses of the closed forms are satisfiable (here: `<` on `Nat`) -/
+example : (∀ a : Nat, decide (a < a) = false) ∧
+    (∀ a b c : Nat, decide (a < b) = true → decide (b < c) = true → decide (a < c) = true) ∧
+    (∀ a b : Nat, decide (a < b) = true ∨ a = b ∨ decide (b < a) = true) := by
+  refine ⟨by simp, ?_, ?_⟩
+  · intro a b c; simp only [decide_eq_true_eq]; omega
+  · intro a b; simp only [decide_eq_true_eq]; omega
+
+/-- the closed forms on the four-input example above: the last merge joins the clusters 4 = {0, 1}
+and 5 = {2, 3}; single linkage reports min {5, 7, 6, 9} = 5, complete linkage max = 9; the leaf
+set of the root 6 is `[0, 1, 2, 3]` -/
+example :
+    let dd : List Nat → List Nat → Nat := fun a b => match a, b with
+      | [0], [1] => 1 | [2], [3] => 2 | [0], [2] => 5 | [0], [3] => 7 | [1], [2] => 6 | _, _ => 9
+    let lt : Nat → Nat → Bool := fun a b => decide (a < b)
+    let mem : List (List Nat) := [[0], [1], [2], [3]]
+    ((cluster .single lt (fun a b => (a + b) / 2) dd mem).map fun s =>
+      (s.clusters.map (·.dist), leaves 4 s.clusters 4, leaves 4 s.clusters 5, leaves 4 s.clusters 6))
+      = some ([1, 2, 5], [0, 1], [2, 3], [0, 1, 2, 3]) ∧
+    ((cluster .complete lt (fun a b => (a + b) / 2) dd mem).map fun s =>
+      (s.clusters.map (·.dist), leaves 4 s.clusters 4, leaves 4 s.clusters 5)) =
+      some ([1, 2, 9], [0, 1], [2, 3]) ∧
+    [leafDist dd mem 0 2, leafDist dd mem 0 3, leafDist dd mem 1 2, leafDist dd mem 3 1] = [5, 7, 6, 9] := by
+  decide
+
+/-- union linkage: the hypothesis of `C17_update_union` is satisfiable — one step on three inputs
+merges the closest pair (0, 1) and stores the callback's value for (union, set₂) under (2, 3) -/
+example :
+    ((unionStep (fun a b : Nat => decide (a < b)) (fun a b => a.length * 10 + b.length + b.head!)
+        (init (fun a b => a.head! + b.head!) [[1], [2], [7]])).map fun s => (s.sets, s.dm))
+    = some ([none, none, some [7], some [1, 2]], [((2, 3), 28)]) := by
   decide
 
 end Hpo.C17
